@@ -112,41 +112,7 @@ func (u *Unit) fieldAddr(base Term, structT types.Type, idx int) Term {
 	fn := u.fieldFn(structT, idx)
 	u.Fun(fn, []Sort{SV}, SV)
 	t := App(fn, SV, base)
-	u.P.mu.Lock()
-	kid, ok := u.P.fieldKinds[fn]
-	if !ok {
-		kid = len(u.P.fieldKinds) + 1
-		u.P.fieldKinds[fn] = kid
-		// module-private field: unexported field of a struct type declared in this module
-		if st, isSt := structT.Underlying().(*types.Struct); isSt {
-			f := st.Field(idx)
-			stable := false
-			if nt, ok := structT.(*types.Named); ok && nt.Obj().Pkg() != nil {
-				full := nt.Obj().Pkg().Name() + "." + nt.Obj().Name()
-				for _, sn := range u.P.StableTypes {
-					if sn == full {
-						stable = true
-					}
-				}
-			}
-			if u.P.finalFa[fn] {
-				stable = true // proved module-wide (FinalCheck): nobody but the constructor writes it
-			}
-			if stable || (!f.Exported() && f.Pkg() != nil && strings.HasPrefix(f.Pkg().Path(), modulePath)) {
-				if u.P.privFa == nil {
-					u.P.privFa = map[string]int{}
-				}
-				u.P.privFa[fn] = kid
-			}
-			if stable {
-				if u.P.stableFa == nil {
-					u.P.stableFa = map[string]int{}
-				}
-				u.P.stableFa[fn] = kid
-			}
-		}
-	}
-	u.P.mu.Unlock()
+	kid := u.P.fieldKind(fn, structT, idx)
 	u.Axiom(Eq(App("abase", SV, t), base))
 	u.Axiom(Eq(App("akind", SInt, t), IntLit(int64(kid))))
 	u.Axiom(Eq(App("aobj", SV, t), App("aobj", SV, base)))
@@ -256,6 +222,10 @@ func (u *Unit) selectMem(st *State, m, addr Term, so Sort, depth int) Term {
 	}
 	if m.Op == "" {
 		if d, ok := st.Derivs[m.A]; ok && depth < 200 {
+			if addr.Op == "" && u.roMaps[addr.A] {
+				// content of a read-only map global: no havoc reaches it
+				return u.selectMem(st, d.Old, addr, so, depth+1)
+			}
 			mod := d.Modified(addr)
 			if isFalse(mod) {
 				return u.selectMem(st, d.Old, addr, so, depth+1)
@@ -537,4 +507,92 @@ func (u *Unit) notStable(addr Term) Term {
 		alts = append(alts, Eq(App("akind", SInt, cur), IntLit(int64(k))))
 	}
 	return Not(Or(alts...))
+}
+
+// fieldKind returns the stable small integer of a field-address function and, on
+// first sight, classifies the field (module-private / stable / final). All
+// struct types declared in the module are registered at load time
+// (registerModuleFields) so that the classification every unit sees does not
+// depend on which other units happened to run before it.
+func (p *Prog) fieldKind(fn string, structT types.Type, idx int) int {
+	p.mu.Lock()
+	defer p.mu.Unlock()
+	kid, ok := p.fieldKinds[fn]
+	if ok {
+		return kid
+	}
+	kid = len(p.fieldKinds) + 1
+	p.fieldKinds[fn] = kid
+	st, isSt := structT.Underlying().(*types.Struct)
+	if !isSt {
+		return kid
+	}
+	f := st.Field(idx)
+	stable := false
+	if nt, ok := structT.(*types.Named); ok && nt.Obj().Pkg() != nil {
+		full := nt.Obj().Pkg().Name() + "." + nt.Obj().Name()
+		for _, sn := range p.StableTypes {
+			if sn == full {
+				stable = true
+			}
+		}
+	}
+	if p.finalFa[fn] {
+		stable = true // proved module-wide (FinalCheck): nobody but the constructor writes it
+	}
+	if stable || (!f.Exported() && f.Pkg() != nil && strings.HasPrefix(f.Pkg().Path(), modulePath)) {
+		if p.privFa == nil {
+			p.privFa = map[string]int{}
+		}
+		p.privFa[fn] = kid
+	}
+	if stable {
+		if p.stableFa == nil {
+			p.stableFa = map[string]int{}
+		}
+		p.stableFa[fn] = kid
+	}
+	return kid
+}
+
+func (p *Prog) registerModuleFields() {
+	u := &Unit{P: p}
+	var paths []string
+	for path := range p.AllPkgs {
+		paths = append(paths, path)
+	}
+	sort.Strings(paths)
+	for _, path := range paths {
+		pk := p.AllPkgs[path]
+		inModule := strings.HasPrefix(path, modulePath)
+		names := pk.Scope().Names()
+		for _, n := range names {
+			tn, ok := pk.Scope().Lookup(n).(*types.TypeName)
+			if !ok {
+				continue
+			}
+			st, ok := tn.Type().Underlying().(*types.Struct)
+			if !ok {
+				continue
+			}
+			stable := false
+			for _, sn := range p.StableTypes {
+				if sn == pk.Name()+"."+tn.Name() {
+					stable = true
+				}
+			}
+			if !inModule && !stable {
+				continue
+			}
+			if _, isNamed := tn.Type().(*types.Named); !isNamed {
+				continue
+			}
+			if nt := tn.Type().(*types.Named); nt.TypeParams().Len() > 0 {
+				continue
+			}
+			for i := 0; i < st.NumFields(); i++ {
+				p.fieldKind(u.fieldFn(tn.Type(), i), tn.Type(), i)
+			}
+		}
+	}
 }
